@@ -44,10 +44,48 @@ def run_case(case, with_bad=True):
     state = case['state']
     bad = rc.frame(case['type'], bytes.fromhex(case['body']))
     as4 = case.get('as4', True)
-    sim, c = ss.new_established(upto=state, hold_time=180, idle_hold_time=5, as4=as4,
-                                caps=[rc.cap_mp(1, 1), rc.cap(2), rc.cap(128)])
+    caps = [rc.cap_mp(1, 1), rc.cap(2), rc.cap(128)]
+    sim, c = ss.new_established(upto='ESTABLISHED' if case.get('prior') else state, hold_time=180, idle_hold_time=5, as4=as4, caps=caps)
     r = sim.reactor
     out = []
+    # earlier sessions of the same agent, each ended in a different way, before the session under test
+    for how in case.get('prior') or []:
+        live = ss.live_connectors(sim)
+        if live:
+            if how == 'close':
+                r.peer_close(live[-1])
+            elif how == 'marker':
+                r.peer_send(live[-1], b'\x00' * 19)
+            elif how == 'cease':
+                r.peer_send(live[-1], rc.notification(6, 4))
+            elif how == 'silence':
+                r.advance(181)
+            r.settle(fire_due=True)
+        # next session up to the state wanted (the last prior leads into the session under test)
+        guard = 0
+        while not r.attempts() and r.next_time() is not None and guard < 50:
+            r.advance_to(r.next_time())
+            r.settle(fire_due=True)
+            guard += 1
+        if not r.attempts():
+            out.append(('prior-session:no-reconnect:%s' % how, 'no new attempt after a session ended by %s' % how))
+            return out, [], sim
+        c = ss.establish(sim, caps=caps, as4=as4, upto='ESTABLISHED')
+    if case.get('prior') and state != 'ESTABLISHED':
+        # bring the LAST session only up to the wanted state: end the established one and stop earlier
+        live = ss.live_connectors(sim)
+        if live:
+            r.peer_close(live[-1])
+            r.settle(fire_due=True)
+        guard = 0
+        while not r.attempts() and r.next_time() is not None and guard < 50:
+            r.advance_to(r.next_time())
+            r.settle(fire_due=True)
+            guard += 1
+        c = ss.establish(sim, caps=caps, as4=as4, upto=state)
+    if c is None or sim.state != state:
+        out.append(('harness:state', 'could not reach %s (%s)' % (state, sim.state)))
+        return out, [], sim
     seq = [('g', good(i + 1, as4)) for i in range(case['pre'])]
     if with_bad:
         seq.append(('b', bad))
@@ -92,8 +130,9 @@ def check_case(case):
     # control run first (a new simulator invalidates the previous one)
     out2, ctrl, sim2 = run_case(case, False)
     out, per_msg, sim = run_case(case, True)
-    if out:
-        return out, 'fail'
+    out = [f for f in out if not f[0].startswith('harness:')]
+    if out or len(per_msg) <= case['pre'] or len(ctrl) < case['pre']:
+        return out, 'fail' if out else 'skipped'
     # metamorphic: good messages after the bad one decode as in the control run
     bad_idx = case['pre']
     after = per_msg[bad_idx + 1:]
@@ -196,8 +235,9 @@ def bad_message(draw):
         body = draw(st.binary(min_size=0, max_size=200))
     else:
         mtype = draw(st.sampled_from([rc.OPEN, rc.NOTIFICATION, rc.ROUTE_REFRESH, rc.ROUTE_REFRESH_CISCO, rc.KEEPALIVE]))
-        base = {rc.OPEN: ss.peer_open(None, hold=90, asn=65002)[19:] if False else rc.open_msg(65002, 90, '10.0.0.2', [rc.cap_mp(1, 1), rc.cap_addpath([(1, 1, 3)])], as4=True)[19:],
-                rc.NOTIFICATION: b'\x06\x02', rc.ROUTE_REFRESH: b'\x00\x01\x00\x01', rc.ROUTE_REFRESH_CISCO: b'\x00\x01\x00\x01',
+        base = {rc.OPEN: rc.open_msg(65002, 90, '10.0.0.2', [rc.cap_mp(1, 1), rc.cap_addpath([(1, 1, 3)])], as4=True)[19:],
+                rc.NOTIFICATION: draw(st.sampled_from([b'\x06\x02', b'\x02\x01', b'\x02\x01\x00\x04', b'\x01\x01', b'\x03\x05', b'\x04\x00',
+                                                      b'\x05\x00'])), rc.ROUTE_REFRESH: b'\x00\x01\x00\x01', rc.ROUTE_REFRESH_CISCO: b'\x00\x01\x00\x01',
                 rc.KEEPALIVE: b''}[mtype]
         b = bytearray(base)
         for _ in range(draw(st.integers(0, 3))):
@@ -213,9 +253,11 @@ def bad_message(draw):
 
 
 case_strategy = st.builds(
-    lambda state, pre, post, bad, as4: dict(state=state, pre=pre, post=post, type=bad['type'], body=bad['body'], kind=bad['kind'], as4=as4),
+    lambda state, pre, post, bad, as4, prior: dict(state=state, pre=pre, post=post, type=bad['type'], body=bad['body'], kind=bad['kind'],
+                                                   as4=as4, prior=prior),
     st.sampled_from(['ESTABLISHED', 'ESTABLISHED', 'ESTABLISHED', 'OPENCONFIRM', 'OPENSENT']),
-    st.integers(0, 2), st.integers(1, 3), bad_message(), st.booleans())
+    st.integers(0, 2), st.integers(1, 3), bad_message(), st.booleans(),
+    st.one_of(st.just([]), st.just([]), st.lists(st.sampled_from(['close', 'marker', 'cease', 'silence']), min_size=1, max_size=2)))
 
 
 def shards(tier):
@@ -252,7 +294,7 @@ def run_shard(spec, seed, col, tier):
     def body(case):
         res, cls = check_case(case)
         col.case(case, len(case['body']) >= 2 and case['post'] >= 1,
-                 labels=['state:' + case['state'], 'kind:' + case['kind'], 'as4:%s' % case.get('as4', True), 'type:%d' % case['type'], 'outcome:' + cls])
+                 labels=['state:' + case['state'], 'kind:' + case['kind'], 'as4:%s' % case.get('as4', True), 'prior-sessions:%d' % len(case.get('prior') or []), 'type:%d' % case['type'], 'outcome:' + cls])
         for sig, detail in res:
             col.fail(sig, case, detail)
     hyp_run(col, case_strategy, body, seed, spec['examples'])
